@@ -121,6 +121,22 @@ def contract_unit(spec):
             if confirmed is not None:
                 e['witness'] = {'inputs': confirmed.get('inputs'), 'detail': confirmed.get('detail')}
         out['obligations'].append(e)
+    if c.ghost.get('k3_bounded_only'):
+        r = rp.k3_search(c, budget=4000)
+        out.setdefault('bounded', []).append(
+            {'id': 'B-K3[%s]' % c.qual, 'function': 'schema %s on the real pipeline' % c.qual,
+             'bound': 'child catalogue x value catalogue x handler modes x pre-bound names',
+             'cases': r.get('tried', 0), 'distinct': r.get('tried', 0)})
+        if r.get('verdict') == 'violates':
+            out['obligations'].append({
+                'name': 'B-K3[%s]' % c.qual, 'expect': 'valid', 'status': 'failed', 'backend': 'bounded',
+                'time': 0.0, 'okind': 'bounded', 'tried': 'enumeration', 'confirmed': True,
+                'text': 'the schema contract holds on the real code for every catalogue instance',
+                'witness': {'inputs': r.get('inputs'), 'detail': r.get('detail')}})
+        elif r.get('verdict') != 'holds':
+            out['obligations'].append({
+                'name': 'B-K3[%s]' % c.qual, 'expect': 'valid', 'status': 'error', 'backend': 'bounded',
+                'time': 0.0, 'okind': 'bounded', 'tried': 'enumeration', 'reason': str(r.get('detail'))[:500]})
     unknown_posts = [e for e in out['obligations'] if e['status'] == 'unknown' and e.get('expect') == 'valid']
     if unknown_posts and c.ghost.get('k3') and not c.ghost.get('k3_static_only') and not vc.exclusions:
         # the solvers gave up on an obligation (typically a satisfiable one on a changed tree: no
